@@ -896,6 +896,56 @@ def check_end_flag_terminated(ctx):
                    'as an end flag, it closes an edition with a truncated '
                    'time (found on the shipped code: F22)')
     ctx.floor('END-FLAG-TERM', n, 1, 'positive returns of _is_end_flag')
+    # the premise of that test: the lines examined are the lines OF THE FILE,
+    # end of line included.  A generator that normalises line ends
+    # (`raw.rstrip(b"\\r\\n") + "\\n"`) gives the cut last line the newline it
+    # never had and makes the test vacuous.
+    n_src = 0
+    for caller in scanner.methods.values():
+        for loop in [l for l in walk_local(caller.node)
+                     if isinstance(l, ast.For)]:
+            if not any(call_name(c) == '_is_end_flag'
+                       for c in calls_in(loop)):
+                continue
+            n_src += 1
+            it = loop.iter
+            files = set()
+            for node in walk_local(caller.node):
+                if isinstance(node, ast.With):
+                    for item in node.items:
+                        if isinstance(item.optional_vars, ast.Name) and \
+                                call_name(item.context_expr) == 'open':
+                            files.add(item.optional_vars.id)
+            if isinstance(it, ast.Name) and it.id in files:
+                ctx.holds('END-FLAG-TERM', caller, f'{caller.name}: the '
+                          f'lines examined are read from the file object '
+                          f'`{it.id}` itself', at=caller.where(loop))
+                continue
+            verdict, why = None, None
+            if isinstance(it, ast.Call):
+                cands, how = program.resolve_call(caller, it)
+                for cand in cands[:1]:
+                    for node in walk_local(cand.node):
+                        if isinstance(node, ast.Yield) and \
+                                node.value is not None:
+                            val = node.value
+                            if isinstance(val, ast.BinOp) and isinstance(
+                                    val.op, ast.Add) and isinstance(
+                                        val.right, ast.Constant) and \
+                                    val.right.value in ('\n', b'\n',
+                                                        '\r\n'):
+                                verdict = False
+                                why = (f'{cand.name} yields '
+                                       f'`{txt(val)[:50]}`: every line, the '
+                                       f'cut last one included, ends with a '
+                                       f'newline')
+                            elif isinstance(val, ast.Name) and verdict is \
+                                    None:
+                                verdict = None
+            ctx.decide('END-FLAG-TERM', caller,
+                       f'{caller.name}: lines come from {txt(it)[:40]}',
+                       verdict, at=caller.where(loop), detail=why)
+    ctx.floor('END-FLAG-TERM-src', n_src, 1, 'loop feeding _is_end_flag')
 
 
 # ------------------------------------------------------------ ZIP-ORDER ---
@@ -1047,3 +1097,49 @@ def check_instance_cache(ctx):
                   f'class-level container '
                   f'({sorted(class_level) or "none declared"})',
                   nontrivial=True)
+
+
+# ------------------------------------------------------------ EDGE-EXACT ---
+
+def check_edge_exact(ctx):
+    """The bin edges read from a listing are compared EXACTLY (the two ends of
+    a boundary are the same printed number); the contiguity test of the
+    spectrum builders refuses a listing whose groups do not join.  A
+    tolerance with an ABSOLUTE part (np.isclose / allclose keep atol = 1e-8
+    unless told otherwise; abs(a - b) < eps) has a physical scale: energies
+    are in MeV, thermal grids live between 1e-11 and 1e-8 MeV, so every pair
+    of thermal boundaries "matches" and a listing with a missing group is
+    accepted, its scores attached to boundaries they were not printed for."""
+    program = ctx.program
+    n = 0
+    bad = 0
+    for modname in (COMMON, CONV, READER, PICKER):
+        mod = program.module(modname)
+        for func in mod.functions.values():
+            n += 1
+            for call in calls_in(func.node):
+                if call_name(call) in ('isclose', 'allclose',
+                                       'assert_allclose', 'approx'):
+                    atol = next((k.value for k in call.keywords
+                                 if k.arg in ('atol', 'abs', 'abs_tol')),
+                                None)
+                    zero = isinstance(atol, ast.Constant) and atol.value in (
+                        0, 0.0)
+                    if zero:
+                        continue
+                    bad += 1
+                    program.consulted.add(mod.relpath)
+                    ctx.violated('EDGE-EXACT', func,
+                                 f'{func.name}: {txt(call)[:60]}',
+                                 at=func.where(call),
+                                 detail='absolute tolerance '
+                                        + (txt(atol) if atol is not None
+                                           else '1e-8 (numpy default)')
+                                        + ' on quantities of the listing: '
+                                          'values of small magnitude (thermal '
+                                          'energies, small scores) all '
+                                          'compare equal')
+    if not bad:
+        ctx.holds('EDGE-EXACT', 'valjean.eponine readers',
+                  f'{n} functions: no comparison with an absolute tolerance',
+                  nontrivial=False)
